@@ -190,7 +190,8 @@ CHECKS["C01"] = {
         {"name": "queue", "pkg": "internal/target/queue", "run": "^TestVerifC01$",
          "overlay": dict(QUEUE_COMMON, **{"verif_c01_test.go": "harness/C01/queue_test.go"}), "overlay_abs": VERIFX},
         {"name": "real", "pkg": "internal/target/queue", "run": "^TestVerifC01Real$",
-         "overlay": dict(QUEUE_COMMON, **{"verif_c01_test.go": "harness/C01/queue_test.go", "verif_c01real_test.go": "harness/C01/real_test.go"}), "overlay_abs": VERIFX},
+         "overlay": dict(QUEUE_COMMON, **{"verif_c01_test.go": "harness/C01/queue_test.go", "verif_c01real_test.go": "harness/C01/real_test.go"}),
+         "overlay_abs": dict(VERIFX, **{"internal/target/remote/verif_export.go": "harness/shared/remote_export/verif_export.go"})},
     ],
     "quick": {"n": 4000, "shards": 16},
     "thorough": {"n": 160000, "shards": 16},
